@@ -1,7 +1,9 @@
 """C12 — LRUSet / LRUMap equal a reference recency list on every operation history."""
 from ..props_common import ASSUME_COMMON
 
-_COMMON = {"name": "c12", "variant": "asan", "shards": (16, 16), "link_lib": False, "extra_cxx": ["-O2"]}
+# -DC12_OPT=<level> only labels the coverage class `build:<assert-on|assert-off>:<level>:<asan|nosan>`; whether NDEBUG is
+# defined, whether the optimiser ran and whether ASan instruments the TU is observed by the harness itself.
+_COMMON = {"name": "c12", "variant": "asan", "shards": (16, 16), "link_lib": False, "extra_cxx": ["-O2", "-DC12_OPT=O2"]}
 
 
 def _st(tag, only, **kw):
@@ -11,7 +13,47 @@ def _st(tag, only, **kw):
     return d
 
 
+# Build configurations of the header-only templates (round 5).  The SAME harness TU is compiled again with the flag sets
+# a user's build system passes to the including TU; `extra_cxx` is part of the harness binary's cache key (vf/build.py), so
+# each flag set is a different binary.  Same histories, same model, same audit; scopes per tier in _cfg_args.
+#   c12-ndebug-O2   g++ -O2 -DNDEBUG + ASan/UBSan   (assert() bodies discarded; CMake RelWithDebInfo flags, monitors on)
+#   c12-release-O3  g++ -O3 -DNDEBUG, no sanitizer  (exactly what a CMake Release build of a user's TU executes)
+#   c12-debug-O0    g++ -O0, asserts on, no sanitizer (CMake Debug)
+_ALL_PARTS = "only=fixed,exset,exmap,bigsz,closet,closmap,random"
+
+
+def _cfg_args(quick, thorough):
+    return lambda ctx: list(quick if ctx["tier"] == "quick" else thorough)
+
+
+_CFG_STAGES = [
+    dict(_COMMON, tag="c12-ndebug-O2", no_mirror=True, extra_cxx=["-O2", "-DNDEBUG", "-DC12_OPT=O2"],
+         args_fn=_cfg_args([_ALL_PARTS, "full_len=3", "map_len=3", "big_len=2", "random_div=2"],
+                           [_ALL_PARTS, "full_len=4", "map_len=4", "big_len=3", "random_div=4"])),
+    dict(_COMMON, tag="c12-release-O3", variant="plain", extra_cxx=["-O3", "-DNDEBUG", "-DC12_OPT=O3"],
+         args_fn=_cfg_args([_ALL_PARTS, "full_len=4", "map_len=3", "big_len=2", "random_div=2"],
+                           [_ALL_PARTS, "full_len=4", "map_len=4", "big_len=3", "random_div=2"])),
+    dict(_COMMON, tag="c12-debug-O0", variant="plain", extra_cxx=["-O0", "-DC12_OPT=O0"],
+         args_fn=_cfg_args(["only=fixed,exset,exmap,bigsz,random", "full_len=3", "map_len=3", "big_len=2", "random_div=4"],
+                           [_ALL_PARTS, "full_len=4", "map_len=3", "big_len=3", "random_div=4"])),
+]
+
+
+_SET_KINDS = ["insert", "emplace", "erase", "touch", "touch_sz", "change_size", "evict", "peek", "swap", "clear",
+              "insert_defsize", "emplace_defsize", "final-drain"]
+_MAP_KINDS = ["insert", "emplace", "erase", "touch", "touch_sz", "change_size", "change_size_notouch", "change_size_touch", "at",
+              "item_size", "evict", "swap", "clear", "insert_defsize", "emplace_defsize", "final-drain"]
+_BUILDS = ["assert-on:O2:asan", "assert-off:O2:asan", "assert-off:O3:nosan", "assert-on:O0:nosan"]
+# every build configuration must have been observed by its own binary, and must have executed every operation kind
+_BUILD_CLASSES = ["build:" + b for b in _BUILDS] + \
+                 ["build:%s:lruset:%s" % (b, k) for b in _BUILDS for k in _SET_KINDS] + \
+                 ["build:%s:lrumap:%s" % (b, k) for b in _BUILDS for k in _MAP_KINDS]
+
 SPEC = {
+    # The driver's generic release mirror (variant asanrel = -O2 -DNDEBUG on a seed-rotated quarter of each stage's shards,
+    # coverage not counted) is switched off for C12: the build-configuration stages below run the NDEBUG configuration on
+    # ALL shards, with their own required coverage classes, plus the sanitizer-free -O3 and -O0 configurations.
+    "no_mirror": True,
     "level": "exploration",
     "technique": "model-based runtime monitoring: inline recency-list model + structural audit of the intrusive list "
                  "after every operation, under ASan/UBSan/LSan",
@@ -25,7 +67,13 @@ SPEC = {
             "unique_ptr values). Each history starts from two fresh instances, is audited after every operation and ends in a "
             "drain by evict_object. evaluations = operations checked (+1 per drain). distinct_nontrivial = distinct "
             "(container, operation kind, pre-state shape of the target) classes, shape in {absent-empty, absent, only, head, "
-            "middle, tail} for keyed ops, {empty, one, many} for evict/peek/clear/drain and the 9 size pairs for swap.",
+            "middle, tail} for keyed ops, {empty, one, many} for evict/peek/clear/drain and the 9 size pairs for swap. "
+            "(5) build configurations: the containers are header-only templates compiled with the including TU's flags, so the "
+            "same harness TU is compiled four times -- -O2 with assert() active + ASan/UBSan (all parts above), -O2 -DNDEBUG + "
+            "ASan/UBSan, -O3 -DNDEBUG without sanitizer (CMake Release), -O0 without sanitizer (CMake Debug) -- and parts "
+            "(1) [quick: length <= 3, thorough: <= 4], (2b), (3), (4) run again from each binary with the same model and "
+            "audit; classes build:<assert-on|assert-off>:<O-level>:<asan|nosan>[:<container>:<operation kind>] record what each "
+            "configuration really executed (NDEBUG state is observed by the binary, not taken from the spec).",
     "level_text": "Small-scope exhaustive enumeration plus seeded random exploration of the real containers built with "
                   "ASan+UBSan. Inside the stated scope (3 keys, sizes {0,1,2}, two instances, the listed lengths) every "
                   "operation history is executed and compared step by step with a reference recency list, and the "
@@ -35,6 +83,8 @@ SPEC = {
                   "3 keys under the assumption that behaviour depends only on the audited state. More keys, other key/value "
                   "types and longer literal histories are only sampled.",
     "stages": [
+        # compiles every harness binary of this tier concurrently (they are then cache hits for the stages below)
+        {"kind": "py", "name": "c12-build", "tag": "c12-build", "func": "c12:prebuild"},
         _st("c12-fixed", "fixed", shards=(2, 2)),
         _st("c12-exset", "exset"),
         _st("c12-exmap", "exmap"),
@@ -45,9 +95,9 @@ SPEC = {
         _st("c12-closet", "closet"),
         _st("c12-closmap", "closmap"),
         _st("c12-random", "random"),
-    ],
+    ] + _CFG_STAGES,
     "min_evaluations": 1000000,
-    "min_classes": {"quick": 150, "thorough": 150},
+    "min_classes": {"quick": 270, "thorough": 270},
     "required_classes": [
         "lruset:insert:absent-empty", "lruset:insert:head", "lruset:insert:middle", "lruset:insert:tail",
         "lruset:emplace:head", "lruset:emplace:tail", "lruset:emplace_defsize:*", "lruset:insert_defsize:*",
@@ -70,7 +120,7 @@ SPEC = {
         "lruset:insert:size>=2^63", "lruset:emplace:size>=2^63", "lruset:change_size:size>=2^63", "lruset:touch_sz:size>=2^63",
         "lrumap:insert:size>=2^63", "lrumap:emplace:size>=2^63", "lrumap:change_size:size>=2^63",
         "lrumap:change_size_touch:size>=2^63", "lrumap:change_size_notouch:size>=2^63", "lrumap:touch_sz:size>=2^63",
-    ],
+    ] + _BUILD_CLASSES,
     "exhaustive": {"quick": False, "thorough": False},
     "exhaustive_note": "enumerated completely: all histories of length <= 4 over the full 46-op (LRUSet<int>) and 60-op "
                        "(LRUMap<int,int64>) alphabets (thorough: LRUSet <= 5; LRUMap length 5 stutter-free only), thorough: all "
@@ -88,6 +138,9 @@ SPEC = {
         "sizes are size_t: the model's size arithmetic is modulo 2^64; boundary sizes (2^31, 2^32, 2^63-1, 2^63, 2^63+7, "
         "SIZE_MAX-1, SIZE_MAX) go through every size-taking entry point. touch(k, ssize_t new_size) is modelled from its "
         "header signature: a negative value (i.e. any size >= 2^63 converted to ssize_t) means 'keep the size'",
+        "build configurations: the property is decided for g++ 12 with NDEBUG defined and not defined and for -O0, -O2, -O3 "
+        "(violation keys found in a binary compiled with NDEBUG carry the prefix 'ndebug:'; the witness text names the "
+        "configuration). Other compilers, -Os, LTO and user-defined macros that the headers do not mention are not varied",
         "LRUSet::after_emplace computes ssize_t(size) - ssize_t(old size); for sizes >= 2^63 that is a signed overflow "
         "(recorded under ub_observations, not a verdict by the framework's UBSan policy); the stored value is still checked",
     ],
